@@ -8,6 +8,25 @@ named property's check, and always undo the change (git checkout). Never commits
 import subprocess, sys, os, json, glob, time
 ROOT = os.path.dirname(os.path.dirname(os.path.abspath(__file__)))
 REPO = "/repo"
+SEEDED = os.path.join(ROOT, "seeded")
+CALIB = os.path.join(ROOT, "calibration")
+
+def make_sandbox(name):
+    """An isolated copy (scratch worktree of /repo + copy of /verif with the path dependency redirected) so that
+    mutation trials never touch /repo itself and several of them can run in parallel. Removed by --cleanup."""
+    global ROOT, REPO
+    base = f"/tmp/mutsb-{name}"
+    repo, verif = base + "/repo", base + "/verif"
+    if not os.path.exists(repo):
+        os.makedirs(base, exist_ok=True)
+        subprocess.run(f"git -C /repo worktree add -q --detach {repo} HEAD && cp /repo/Cargo.lock {repo}/", shell=True, check=True)
+    subprocess.run(f"mkdir -p {verif} && rsync -a --delete --exclude 'target*' --exclude tmp --exclude replays --exclude .git --exclude evidence {ROOT}/ {verif}/ && mkdir -p {verif}/evidence {verif}/tmp", shell=True, check=True)
+    subprocess.run(f"sed -i 's#path = \"/repo\"#path = \"{repo}\"#' {verif}/harness/Cargo.toml", shell=True, check=True)
+    ROOT, REPO = verif, repo
+
+def cleanup_sandbox(name):
+    base = f"/tmp/mutsb-{name}"
+    subprocess.run(f"git -C /repo worktree remove --force {base}/repo; git -C /repo worktree prune; rm -rf {base}", shell=True)
 ENV = dict(os.environ, CARGO_NET_OFFLINE="true")
 
 def sh(cmd, cwd=None, timeout=3600):
@@ -16,6 +35,7 @@ def sh(cmd, cwd=None, timeout=3600):
 
 def repo_clean():
     rc, out = sh("git status --porcelain --untracked-files=no", REPO)
+    out = "\n".join(l for l in out.splitlines() if "Cargo.lock" not in l)
     return out.strip() == ""
 
 def revert():
@@ -42,12 +62,18 @@ def main():
     if "--tier" in args: tier = args[args.index("--tier") + 1]
     if "--checks" in args: checks = args[args.index("--checks") + 1].split(",")
     sel = [s for s in sel if s not in (tier,) and (checks is None or s != ",".join(checks))]
+    if "--sandbox" in args:
+        sb = args[args.index("--sandbox") + 1]
+        sel = [x for x in sel if x != sb]
+        if "--cleanup" in args:
+            cleanup_sandbox(sb); return
+        make_sandbox(sb)
     if not repo_clean():
         print("refusing: /repo has uncommitted changes"); sys.exit(2)
     results = []
     try:
         if mode == "calibration":
-            sys.path.insert(0, os.path.join(ROOT, "calibration"))
+            sys.path.insert(0, CALIB)
             from mutants import M
             for name, prop, f, old, new in M:
                 if sel and not any(s in name for s in sel): continue
@@ -66,7 +92,7 @@ def main():
                 print(line, flush=True)
                 revert()
         else:
-            for d in sorted(glob.glob(os.path.join(ROOT, "seeded", "*"))):
+            for d in sorted(glob.glob(os.path.join(SEEDED, "*"))):
                 sid = os.path.basename(d)
                 if sel and not any(s in sid for s in sel): continue
                 meta = json.load(open(os.path.join(d, "meta.json"))) if os.path.exists(os.path.join(d, "meta.json")) else {}
